@@ -146,7 +146,9 @@ func watchScenario(c *core.Ctx, rounds []watchRound) {
 	informative, split, judged := 0, 0, 0
 	for ri, r := range rounds {
 		from := len(lines)
-		goSave := func() { write("a.templ", watchTempl("proj", "A", fmt.Sprintf("s + \"r%d\"", ri), fmt.Sprintf("a%d", ri))) }
+		goSave := func() {
+			write("a.templ", watchTempl("proj", "A", fmt.Sprintf("s + \"r%d\"", ri), fmt.Sprintf("a%d", ri)))
+		}
 		textSave := func() { write("b.templ", watchTempl("proj", "B", "s", fmt.Sprintf("text of round %d", ri))) }
 		switch r.Kind {
 		case "go-then-text":
